@@ -12,6 +12,51 @@ from pathlib import Path
 
 from pydantic import BaseModel
 from soundevent import data, io
+try:
+    from soundevent import _verif as _hooks
+except Exception:  # hook module removed
+    _hooks = None
+
+ADAPTER_KIND = {"UserAdapter": "user", "TagAdapter": "tag", "RecordingAdapter": "recording", "ClipAdapter": "clip",
+                "SoundEventAdapter": "sound_event", "SequenceAdapter": "sequence", "SoundEventAnnotationAdapter": "se_ann",
+                "SequenceAnnotationAdapter": "seq_ann", "ClipAnnotationsAdapter": "clip_ann",
+                "SoundEventPredictionAdapter": "se_pred", "SequencePredictionAdapter": "seq_pred",
+                "ClipPredictionsAdapter": "clip_pred", "MatchAdapter": "match", "ClipEvaluationAdapter": "clip_eval",
+                "AnnotationTaskAdapter": "task"}
+
+
+class Machinery(Exception):
+    """hook instrumentation missing or unreadable: a failure of the machinery, never a verdict"""
+
+
+def hooks_enabled():
+    return bool(_hooks is not None and getattr(_hooks, "ENABLED", False))
+
+
+def read_events(path: Path, rev: dict):
+    """Decode the hook events of one save+load into [e, k, o, n] records with model identifiers."""
+    evs, tagname = [], {}
+    if not path.exists():
+        return evs
+    for line in path.read_text().splitlines():
+        r = json.loads(line)
+        ev = r["ev"]
+        if ev in ("begin", "end"):
+            if ev == "end" and r.get("dir") == "save":
+                evs.append({"e": "endsave", "k": "", "o": "", "n": 0})
+            continue
+        k = ADAPTER_KIND.get(r.get("adapter"), "?" + str(r.get("adapter")))
+        o = ""
+        if "id" in r:
+            if k == "tag":
+                if "key" in r and isinstance(r["key"], list):
+                    tagname[r["id"]] = rev.get(tuple(r["key"]), f"?tag{r['id']}")
+                o = tagname.get(r["id"], f"?tag{r['id']}")
+            else:
+                o = rev.get(str(r["id"]), "?" + str(r["id"])[:8])
+        n = int(r["size"]) if "size" in r else (1 if r.get("hit") else 0)
+        evs.append({"e": ev, "k": k, "o": o, "n": n})
+    return evs
 
 NS = uuid.UUID("6ba7b810-9dad-11d1-80b4-00c04fd430c8")
 CTYPE_CLASS = {"recording_set": data.RecordingSet, "dataset": data.Dataset, "annotation_set": data.AnnotationSet,
@@ -405,9 +450,12 @@ def run_cycles(case, workdir: Path):
         audio = tmp / "audio dir"
         root, rev, _recs = build_world(case, audio)
         adir = {"none": None, "str": str(audio), "path": audio}[case.get("audio", "none")]
-        cycles, cur, first_doc = [], root, None
+        cycles, cur, first_doc, traces = [], root, None, []
         for n in range(case.get("cycles", 1)):
             f = tmp / f"c{n}.json"
+            tf = tmp / f"trace{n}.ndjson"
+            if hooks_enabled():
+                os.environ["SOUNDEVENT_VERIF"] = str(tf)
             saved, _ = outcome_of(lambda: io.save(cur, f, audio_dir=adir))
             rec = {"saved": saved, "loaded": "", "type": "?", "diff": [], "docdiff": [],
                    "doc": {"defs": {k: [] for k in KINDS}, "refs": [], "parents": []}}
@@ -426,9 +474,10 @@ def run_cycles(case, workdir: Path):
                     rec["diff"] = diff(root, obj)
                     cur = obj
             cycles.append(rec)
+            traces.append(read_events(tf, rev))
             if rec["saved"] or rec["loaded"]:
                 break
-        return {"cycles": cycles}
+        return {"cycles": cycles, "traces": traces, "hooks": hooks_enabled()}
     finally:
         shutil.rmtree(tmp, ignore_errors=True)
 
